@@ -4,7 +4,10 @@ import Snowflake.Proofs.IP
 # C08 — local addresses are stripped from SDP, nothing else is lost
 
 Theorems about `Snowflake.Model.Util` (tied to the source in `Tie/Util.lean`: the translated
-`util.IsLocal` equals `isLocal`; the filter loop is tied by a statement listing and differential runs).
+`util.IsLocal` equals `isLocal`; the filter loop is tied by a statement listing and differential runs;
+the application of the filter to what `Negotiate` / `sendAnswer` send is tied in
+`Tie/StripAppliedClient.lean` / `Tie/StripAppliedProxy.lean` by data-flow facts about their regenerated
+statement lists, and by differential runs of the two real functions).
 
 `partial` by design (DESIGN §5.8): pion's SDP parser / marshaller and `ice.UnmarshalCandidate` are not
 modelled — they enter through `view`; "no input makes `StripLocalAddresses` panic" is therefore not a
@@ -245,6 +248,89 @@ theorem stripSdp_removes_all (d : Sdp α μ σ) :
 theorem stripSdp_idempotent (d : Sdp α μ σ) : stripSdp view (stripSdp view d) = stripSdp view d := by
   simp [stripSdp, List.map_map, Function.comp_def, strip_idempotent]
 
+/-! ### what leaves the process
+
+`leaves view keep d` is the description `Negotiate` / `sendAnswer` serialise into the request to the
+broker (tied to the two functions in `Tie/StripAppliedClient.lean`: `negotiate_strips_under_flag`,
+`negotiate_sends_serialised`, and `Tie/StripAppliedProxy.lean`: `sendAnswer_strips_under_flag`,
+`sendAnswer_sends_serialised`).  The clause of the property about what is *sent* is the composition of
+that definition with the theorems above. -/
+
+variable {τ : Type}
+
+/-- `leaves` is the two-way choice and nothing else: the untouched description when local addresses are
+explicitly kept, otherwise the same type with the stripped SDP — whatever stripping removed. -/
+theorem leaves_eq (keep : Bool) (d : Desc τ α μ σ) :
+    leaves view keep d = if keep then d else ⟨d.type, stripSdp view d.sdp⟩ := by
+  cases keep <;> rfl
+
+/-- Local addresses explicitly kept: the description leaves untouched. -/
+theorem leaves_kept (d : Desc τ α μ σ) : leaves view true d = d := rfl
+
+/-- **Unless local addresses are explicitly kept, no local host candidate leaves the process**: no
+media-level attribute of the sent description is an ICE candidate that parses, is of type host and has
+an address that parses to a local (RFC 1918 / 6598 / 3927 / 4193), unspecified or loopback IP. -/
+theorem leaves_no_local (d : Desc τ α μ σ) :
+    ∀ m ∈ (leaves view false d).sdp.media, ∀ a ∈ m.attrs, ¬ Bad (view a) :=
+  stripSdp_removes_all view d.sdp
+
+/-- The same in terms of the ranges (`isLocal_spec`): a host candidate of the sent description whose
+address is an IP literal lies outside every local range and is neither loopback nor unspecified. -/
+theorem leaves_survivor_not_local (d : Desc τ α μ σ) (m : Media α μ) (hm : m ∈ (leaves view false d).sdp.media)
+    (a : α) (ha : a ∈ m.attrs)
+    (hc : (view a).isCandidate = true) (hp : (view a).parsesOK = true) (hh : (view a).isHost = true)
+    (ip : List UInt8) (hip : parseIP (view a).addr = some ip) :
+    isLocal ip = false ∧ isUnspecified ip = false ∧ isLoopback ip = false := by
+  have := leaves_no_local view d m hm a ha
+  unfold Bad at this
+  cases h1 : isLocal ip <;> cases h2 : isUnspecified ip <;> cases h3 : isLoopback ip <;>
+    first
+    | exact ⟨rfl, rfl, rfl⟩
+    | exact absurd ⟨hc, hp, hh, ip, hip, by simp [h1, h2, h3]⟩ this
+
+/-- **Everything else is preserved, in order**, with either value of the flag: the type, the session
+part, number / order / other fields of the media sections; and each section's attributes are the
+original ones minus exactly the `Bad` ones (all of them when local addresses are kept). -/
+theorem leaves_preserves (keep : Bool) (d : Desc τ α μ σ) :
+    (leaves view keep d).type = d.type
+    ∧ (leaves view keep d).sdp.session = d.sdp.session
+    ∧ (leaves view keep d).sdp.media.length = d.sdp.media.length
+    ∧ (leaves view keep d).sdp.media.map (·.other) = d.sdp.media.map (·.other)
+    ∧ (leaves view keep d).sdp.media.map (·.attrs)
+        = d.sdp.media.map (fun m => if keep then m.attrs else m.attrs.filter (fun a => !bad (view a))) := by
+  cases keep
+  · have h := stripSdp_untouched view d.sdp
+    exact ⟨rfl, h.1, h.2.1, h.2.2, by simpa [leaves] using stripSdp_attrs view d.sdp⟩
+  · simp [leaves]
+
+/-- **No fall-back**: a description all of whose candidates are local host candidates leaves with no
+candidate at all — the sent description is never the unstripped one because stripping "removed too
+much". -/
+theorem leaves_all_local (d : Desc τ α μ σ) (h : ∀ m ∈ d.sdp.media, ∀ a ∈ m.attrs, Bad (view a)) :
+    ∀ m ∈ (leaves view false d).sdp.media, m.attrs = [] := by
+  intro m hm
+  simp only [leaves, Bool.not_false, if_true, stripSdp, List.mem_map] at hm
+  obtain ⟨m0, hm0, rfl⟩ := hm
+  simp only [strip_removes_only, List.filter_eq_nil_iff]
+  intro a ha
+  have := (bad_iff (view a)).mpr (h m0 hm0 a ha)
+  simp [this]
+
+/-- **`sent_description_spec`** — the clause of C08 about the description a client or proxy sends to
+the broker, for both values of the flag. -/
+theorem sent_description_spec (keep : Bool) (d : Desc τ α μ σ) :
+    (keep = true → leaves view keep d = d)
+    ∧ (keep = false → ∀ m ∈ (leaves view keep d).sdp.media, ∀ a ∈ m.attrs, ¬ Bad (view a))
+    ∧ (leaves view keep d).type = d.type
+    ∧ (leaves view keep d).sdp.session = d.sdp.session
+    ∧ (leaves view keep d).sdp.media.map (·.other) = d.sdp.media.map (·.other)
+    ∧ (leaves view keep d).sdp.media.map (·.attrs)
+        = d.sdp.media.map (fun m => if keep then m.attrs else m.attrs.filter (fun a => !bad (view a))) := by
+  have hp := leaves_preserves view keep d
+  refine ⟨?_, ?_, hp.1, hp.2.1, hp.2.2.2.1, hp.2.2.2.2⟩
+  · rintro rfl; rfl
+  · rintro rfl; exact leaves_no_local view d
+
 end filter
 
 /-! ## Non-vacuity -/
@@ -264,6 +350,26 @@ example :
         mk true "100.128.0.0", mk true "fbff::1", mk true "fe00::1", mk false "10.0.0.1",
         ⟨true, false, false, []⟩, ⟨false, false, false, []⟩, mk true "abc.local"] := by
   decide +kernel
+
+/-- an all-local answer (the hypothesis of `leaves_all_local` is satisfiable, and `leaves` really
+distinguishes the two values of the flag): stripped to nothing unless kept; a server-reflexive candidate
+with a private address is not a host candidate and leaves -/
+example :
+    (leaves id false (⟨"answer", (), [⟨(), [mk true "10.1.2.3", mk true "fd00::2", mk true "127.0.0.1"]⟩]⟩ : Desc String CandInfo Unit Unit)).sdp.media.map (·.attrs)
+      = [[]]
+    ∧ (leaves id true (⟨"answer", (), [⟨(), [mk true "10.1.2.3", mk true "fd00::2", mk true "127.0.0.1"]⟩]⟩ : Desc String CandInfo Unit Unit)).sdp.media.map (·.attrs)
+      = [[mk true "10.1.2.3", mk true "fd00::2", mk true "127.0.0.1"]]
+    ∧ (leaves id false (⟨"offer", (), [⟨(), [mk true "192.168.1.7", mk false "192.168.1.7", mk true "192.0.2.2"]⟩]⟩ : Desc String CandInfo Unit Unit)).sdp.media.map (·.attrs)
+      = [[mk false "192.168.1.7", mk true "192.0.2.2"]] := by
+  decide +kernel
+
+example : ∀ m ∈ [(⟨(), [mk true "10.1.2.3", mk true "::1"]⟩ : Media CandInfo Unit)], ∀ a ∈ m.attrs, Bad (id a) := by
+  intro m hm a ha
+  rw [← bad_iff]
+  simp only [List.mem_singleton] at hm
+  subst hm
+  simp only [List.mem_cons, List.mem_nil_iff, or_false] at ha
+  rcases ha with rfl | rfl <;> decide +kernel
 
 example : isLocal [172, 31, 255, 255] = true ∧ isLocal [172, 32, 0, 0] = false ∧ isLocal [100, 63, 255, 255] = false
     ∧ isLocal [100, 64, 0, 0] = true ∧ isLocal [0xfb, 0xff, 0, 0, 0, 0, 0, 0, 0, 0, 0, 0, 0, 0, 0, 1] = false
